@@ -18,7 +18,7 @@ RULE = ("sweeps: `cbx <len> <start> <count>` = all strings of that length over C
         "(representable?, Content, kind, bounds, reference decoder on the module row / weighted check sum); "
         "single cases: empty string, '!', one letter, every byte 0..255 alone, between A..B and in a digit string, "
         "strings with A-D inside, lower case, ill-formed and multi-byte UTF-8 in every position (incl. the class "
-        "'odd rune count in an even byte count' for interleaved), random long texts (Codabar up to 60 characters, "
+        "'odd rune count in an even byte count' for interleaved, the defect fixed by 63bda0c), random long texts (Codabar up to 60 characters, "
         "2-of-5 up to 80 digits); non-trivial = accepted input, or rejected input that is one edit away from an "
         "accepted one / sweep line; distinct = distinct case line (sweep sizes are in distribution.sweep_strings)")
 
@@ -26,11 +26,6 @@ CB_ALPHA = b"0123456789-$:/.+ABCD"
 CB_BODY = b"0123456789-$:/.+"
 WEIRD = [b"\xc3\xa9", b"\xef\xbc\x91", b"\xd9\xa1", b"\xf0\x9d\x9f\x8f", b"\xf0\x9f\x98\x80", b"\xc2", b"\xe2\x82",
          b"\xc0\xb1", b"\xed\xa0\x80", b"\xef\xbf\xbd", b"\x80", b"\xff", b"\xc3\x28", b"\xf4\x90\x80\x80"]
-
-KNOWN_TOF = ("finding: property=C08 twooffive.Encode(content, interleaved=true) accepts non-digit content whose byte "
-             "length is even but whose rune count is odd (e.g. \"\\u00e9\", \"12\\u00e9\"): the last rune is stored "
-             "in lastRune and never looked up; the symbol shows only the digit pairs before it")
-
 
 def hx(b):
     return b.hex() if b else "-"
@@ -138,14 +133,10 @@ def nontrivial(line, impl_out):
     return (impl_out or "").startswith("OK") or len(t[-1]) >= 4
 
 
-_IMPL = {}
-
-
 def oracle_lines(lines, impl_outs):
     res = []
     for l, o in zip(lines, impl_outs):
         t = l.split()
-        _IMPL[l] = o
         if o is None:
             res.append(None)
         elif t[0] in SWEEPS:
@@ -159,28 +150,6 @@ def oracle_verdict(line, impl_out, oracle_out):
     if oracle_out == "fine" or (oracle_out or "").startswith("fine "):
         return None
     return "specification: " + (oracle_out or "no output")[:300]
-
-
-def in_known_class(b):
-    """digit pairs followed by ONE well-formed multi-byte rune of even width (2 or 4 bytes)"""
-    for w in (2, 4):
-        if len(b) >= w and (len(b) - w) % 2 == 0 and all(48 <= c <= 57 for c in b[:-w]):
-            try:
-                if len(b[-w:].decode("utf-8")) == 1:
-                    return True
-            except UnicodeDecodeError:
-                pass
-    return False
-
-
-def known(line):
-    """the reproduced defect of twooffive.Encode in interleaved mode (see the C08 report); only while the
-    implementation still accepts such an input, so that a repaired implementation with a stale model shows up"""
-    t = line.split()
-    if t[0] == "tof" and t[1] == "1" and t[2] != "-" and (_IMPL.get(line) or "").startswith("OK"):
-        if in_known_class(bytes.fromhex(t[2])):
-            return KNOWN_TOF
-    return None
 
 
 def distribution(lines, impl_outs):
